@@ -166,7 +166,7 @@ func init() {
 		inRun := false
 		for k := 0; k < len(src); {
 			r, n := i.decodeRune(src[k:])
-			m := i.reMatch(c, r)
+			m := i.simp(i.reMatch(c, r))
 			if !c.plus && n == 1 && len(repl) == 1 && !m.IsConst() {
 				// byte-for-byte: no fork
 				out = append(out, i.val(i.st.Ite(m, i.term(repl[0]), i.term(src[k])), types.Uint8))
@@ -202,7 +202,7 @@ func init() {
 		any := i.st.False
 		for k := 0; k < len(src); {
 			r, n := i.decodeRune(src[k:])
-			m := i.reMatch(c, r)
+			m := i.simp(i.reMatch(c, r))
 			runes = append(runes, rn{k, n, m})
 			any = i.st.Or(any, m)
 			k += n
